@@ -62,7 +62,8 @@ Definition K := Eval vm_compute in mismatches clash 0 cases.
 Print K.
 """
 
-DEFECTS = ["undefined-token", "double-definition", "double-definition-verbatim", "same-value", "unknown-predef", "invalid-pattern", "no-production", "no-start", "handle-twice"]
+DEFECTS = ["undefined-token", "double-definition", "double-definition-verbatim", "same-value", "unknown-predef", "invalid-pattern", "no-production", "no-start", "handle-twice",
+           "rule-handle-twice", "rule-handle-twice-later"]
 
 
 def seed_defects(rng, text, which):
@@ -93,6 +94,14 @@ def seed_defects(rng, text, which):
             decls.append("tt = missing_rule;")
         elif d == "no-start":
             decls = [l for l in decls if not l.startswith("start =")]
+        elif d in ("rule-handle-twice", "rule-handle-twice-later"):
+            # a production listed in two levels, once as the SECOND alternative of a rule handle (first or later on its line)
+            n = "rh" if d == "rule-handle-twice" else "rk"
+            lead = "" if d == "rule-handle-twice" else '"%s0" ' % n
+            decls.append('@left %s<%s = %s "%s1" %s | %s "%s2" %s>;' % (lead, n, n, n, n, n, n, n))
+            decls.append('@right <%s = %s "%s2" %s>;' % (n, n, n, n))
+            decls.append('%s = "%sq"%s;' % (n, n, (' | "%s0"' % n) if lead else ""))
+            decls.append("r%s = %s;" % (n, n))
         elif d == "handle-twice":
             decls.append('@left "hh";')
             decls.append('@right "hh";')
